@@ -14,7 +14,7 @@ import httpcore
 
 import h2.settings
 
-MAXS = (0, 1, 2, 3, 100, 1000)  # 0 = no SETTINGS change
+MAXS = (0, 1, 2, 3, 100, 1000, -1)  # 0 = no SETTINGS change; -1 = a SETTINGS frame that changes another parameter only
 
 
 class Script:
@@ -86,8 +86,9 @@ class Script:
             merged.append(q.pop(0))
         if self.settings_val:
             pos = min(self.settings_at, len(merged))
-            merged.insert(pos, lambda: srv.conn.update_settings(
-                {h2.settings.SettingCodes.MAX_CONCURRENT_STREAMS: self.settings_val}))
+            change = ({h2.settings.SettingCodes.INITIAL_WINDOW_SIZE: 131072} if self.settings_val < 0
+                      else {h2.settings.SettingCodes.MAX_CONCURRENT_STREAMS: self.settings_val})
+            merged.insert(pos, lambda: srv.conn.update_settings(change))
         if self.ping_at >= 0:
             merged.insert(min(self.ping_at, len(merged)), lambda: srv.conn.ping(b"12345678"))
         cuts = sorted(set(c for c in self.batch_cuts if 0 < c < len(merged)))
@@ -122,10 +123,10 @@ class Script:
         ("settings", "rst == 0 and ping == 0 and b0 == 0 and p2 == 0 and p3 == 0 and p4 == 0 and p5 == 0 and d0 == 0 and c0 == 0"),
         ("rst", "sv == 0 and ping == 0 and b0 == 0 and p4 == 0 and p5 == 0 and d0 == 0 and c0 == 0"),
         ("ping", "sv == 0 and rst == 0 and b0 == 0 and p2 == 0 and p3 == 0 and p4 == 0 and p5 == 0 and aband == 0 and d0 == 0 and c0 == 0"))]
-    + [{"S": 2, "mode": "cancel", "_pre": f"cz > 0 and sv == {v} and rst == 0 and ping == 0 and b0 in (0, 3, 4, 5) and p2 == 0 and p3 == 0 and p4 == 0 and p5 == 0 and aband == 0 and d0 == 0 and c0 == 0 and sa <= 5"}
-       for v in (0, 5)]
+    + [{"S": 2, "mode": "cancel", "_pre": f"cz > 0 and sv == {v} and rst == 0 and ping == 0 and b0 == {b} and p2 == 0 and p3 == 0 and p4 == 0 and p5 == 0 and aband == 0 and d0 == 0 and c0 == 0 and sa <= 5"}
+       for v in (0, 5) for b in ((0, 4) if v == 0 else (0, 3, 4, 5))]
     + [{"S": 3, "mode": "limited", "adv": adv, "cold": cold,
-        "_pre": "sv == 0 and rst == 0 and ping == 0 and b0 == 0 and p1 == 0 and p2 == 0 and p3 == 0 and p4 == 0 and p5 == 0 and aband == 0 and d0 <= 12"}
+        "_pre": "sv in (0, 6) and sa <= 3 and rst == 0 and ping == 0 and b0 == 0 and p1 == 0 and p2 == 0 and p3 == 0 and p4 == 0 and p5 == 0 and aband == 0 and d0 <= 12"}
        for adv in (1, 2) for cold in (False, True)]
     + [{"S": 3, "mode": "order3", "_pre": f"sv == 0 and rst == 0 and ping == 0 and b0 == 0 and p0 == {a} and aband == 0 and d0 == 0 and c0 == 0"} for a in range(3)]
     + [{"S": 3, "mode": "settings3", "_pre": "rst == 0 and ping == 0 and b0 == 0 and p1 == 0 and p2 == 0 and p3 == 0 and p4 == 0 and p5 == 0 and aband == 0 and d0 == 0 and c0 == 0"}],
@@ -140,7 +141,7 @@ class Script:
     example=dict(p0=1, p1=0, p2=1, p3=0, p4=0, p5=0, b0=2, sa=1, sv=0, rst=0, ping=0, aband=0, d0=0, c0=0, cz=0),
     require=("interleaved", "all-complete"),
     timeout={"quick": 300, "thorough": 1800},
-    symbolic="merge order of the per-stream frame sequences (up to 6 picks), batch boundary b0, SETTINGS(MAX_CONCURRENT_STREAMS) position and value from {1,2,3,100,1000} (incl. below the number in flight), RST_STREAM on one stream, PING position, which caller abandons its response, one deviation from the FIFO schedule, cancellation of the first caller at a scheduler step",
+    symbolic="merge order of the per-stream frame sequences (up to 6 picks), batch boundary b0, SETTINGS(MAX_CONCURRENT_STREAMS) position and value from {1,2,3,100,1000} (incl. below the number in flight) or a SETTINGS frame that changes another parameter only, RST_STREAM on one stream, PING position, which caller abandons its response, one deviation from the FIFO schedule, cancellation of the first caller at a scheduler step",
     bounds="S = 2 or 3 concurrent requests after a warm-up request on one HTTP/2 connection (prior knowledge), responses of HEADERS + 2 DATA frames",
     outside="more than 3 concurrent streams; CONTINUATION/push/priority frames; more than one schedule deviation",
     stubs=("strict h2 library in server role (raises on stream-limit or flow-control violations)", "server releases the next batch of frames whenever every client task is blocked"),
@@ -153,7 +154,7 @@ def streams(p0: int, p1: int, p2: int, p3: int, p4: int, p5: int, b0: int, sa: i
             aband: int, d0: int, c0: int, cz: int) -> None:
     """
     pre: 0 <= p0 <= 2 and 0 <= p1 <= 2 and 0 <= p2 <= 2 and 0 <= p3 <= 2 and 0 <= p4 <= 2 and 0 <= p5 <= 2
-    pre: 0 <= b0 <= 8 and 0 <= sa <= 9 and 0 <= sv <= 5 and 0 <= rst <= 3 and 0 <= ping <= 9 and 0 <= aband <= 3
+    pre: 0 <= b0 <= 8 and 0 <= sa <= 9 and 0 <= sv <= 6 and 0 <= rst <= 3 and 0 <= ping <= 9 and 0 <= aband <= 3
     pre: 0 <= d0 <= 30 and 0 <= c0 <= 2 and 0 <= cz <= 40
     post: _
     """
@@ -166,7 +167,7 @@ def streams(p0: int, p1: int, p2: int, p3: int, p4: int, p5: int, b0: int, sa: i
     if (sv == 0 and sa != 0) or (d0 == 0 and c0 != 0) or (d0 != 0 and c0 == 0):
         return
     picks = [ladder(x, 0, 2) for x in (p0, p1, p2, p3, p4, p5)]
-    bb, saa, svv = ladder(b0, 0, 8), ladder(sa, 0, 9), ladder(sv, 0, 5)
+    bb, saa, svv = ladder(b0, 0, 8), ladder(sa, 0, 9), ladder(sv, 0, 6)
     rr, pp, ab = ladder(rst, 0, 3), ladder(ping, 0, 9), ladder(aband, 0, 3)
     dd, cc, czz = ladder(d0, 0, 30), ladder(c0, 0, 2), ladder(cz, 0, 40)
     with concrete(bb, saa, svv, rr, pp, ab, dd, cc, czz, *picks):
@@ -204,7 +205,8 @@ def _streams(S: int, picks: list[int], b0: int, settings_at: int, settings_val: 
            late=script.late)
     if len(set(picks[:4])) > 1:
         P.cover("interleaved")
-    where = f"settings={settings_val}@{'below-in-flight' if 0 < settings_val < S else 'ok'}" if settings_val else "plain"
+    where = (f"settings={settings_val}@{'below-in-flight' if 0 < settings_val < S else 'ok'}" if settings_val > 0
+             else ("other-setting" if settings_val else "plain"))
     # -------- each caller receives exactly its own stream
     for prop in ("C12", "C01", "C02"):
         token_oracle(callers, prop, sig)
@@ -247,5 +249,5 @@ def _streams(S: int, picks: list[int], b0: int, settings_at: int, settings_val: 
             lambda: f"{sig}:streams-before-settings:{srv.max_open_pre_ack}", prop="C12")
     if adv and adv < S:
         P.cover("waited-for-slot")
-    if settings_val and script.late:
+    if settings_val > 0 and script.late:
         P.cover("waited-for-slot")
